@@ -138,11 +138,11 @@ Definition deleted_on (k : evkind) (out : list obs) : list (eaddr * N) :=
                      | _ => []
                      end) out.
 
-(* a delete call removes the entries with the named client address (device defaulted to the
-   sender's, SPINE 7.4.4) on the server feature of the removal event *)
+(* a delete call removes the entries OF THE CALLING CONNECTION with the named client address (device
+   defaulted to the sender's, SPINE 7.4.4) on the server feature of the removal event *)
 Definition after_delete (m : mst) (p : N) (c : reg_call) (k : evkind) (out : list obs) (l : list sentry) : list sentry :=
   let ca := match find_peer (w m) p with Some pe => default_dev pe (rc_cli c) | None => rc_cli c end in
-  filter (fun x => negb (eqb_faddr (s_cli x) ca && existsb (eqb_srv (s_srv x)) (deleted_on k out))) l.
+  filter (fun x => negb (N.eqb (s_ski x) p && eqb_faddr (s_cli x) ca && existsb (eqb_srv (s_srv x)) (deleted_on k out))) l.
 
 Definition calls_to (out : list obs) : list N :=
   flat_map (fun o => match o with OCall p _ _ _ => [p] | _ => [] end) out.
